@@ -50,7 +50,7 @@ SOFT_THOROUGH = ["", "V200R019C10SPC800", "7.0(3)I7(9)", "Cumulus Linux 4.2", "S
                  "6.48.6"]
 # DESIGN §9: canonical model strings used by tests/__init__.py:make_hw_stub
 CANONICAL_DESIGN = {
-    "huawei": "Huawei CE6870", "h3c": "H3C", "optixtrans": "Huawei DC", "cisco": "Cisco Catalyst",
+    "huawei": "Huawei CE6870", "h3c": "H3C", "optixtrans": "Huawei OptiXtrans DC908", "cisco": "Cisco Catalyst",
     "nexus": "Cisco Nexus", "iosxr": "Cisco ASR", "arista": "Arista", "aruba": "Aruba", "b4com": "B4com",
     "juniper": "Juniper", "ribbon": "Ribbon", "nokia": "Nokia", "routeros": "RouterOS", "pc": "PC",
 }
